@@ -198,26 +198,82 @@ struct StreamWorld : IWorld
     return arr(out);
   }
 
+  // ---- destinations of operator>>: one scratch object per destination type, REUSED across the
+  // reads of a history as the action's `dst` says:
+  //   "fresh"  a newly constructed object          "reused" the scratch object as the last read left it
+  //   "prepop" the scratch object assigned arg.pre beforehand
+  // (a scratch object is replaced by a new one after a read into it has thrown)
+  std::unique_ptr<std::string> sStr;
+  std::unique_ptr<std::vector<int>> sVi;
+  std::unique_ptr<std::vector<uint8_t>> sVb;
+  std::unique_ptr<std::vector<std::string>> sVs;
+  std::unique_ptr<std::vector<std::vector<int>>> sVvi;
+  uint8_t pU8 = 0;
+  int32_t pI32 = 0;
+  size_t pU64 = 0;
+  double pF64 = 0;
+  Pod pPod = Pod();
+
+  static void assign(std::string &d, const Json &v) { d = v.str(); }
+  static void assign(std::vector<int> &d, const Json &v) { d = ints(v); }
+  static void assign(std::vector<uint8_t> &d, const Json &v) { d = bytes(v); }
+  static void assign(std::vector<std::string> &d, const Json &v)
+  {
+    d.clear();
+    for (size_t i = 0; i < v.size(); ++i) d.push_back(v[i].str());
+  }
+  static void assign(std::vector<std::vector<int>> &d, const Json &v)
+  {
+    d.clear();
+    for (size_t i = 0; i < v.size(); ++i) d.push_back(ints(v[i]));
+  }
+
+  template <typename T>
+  T &dest(std::unique_ptr<T> &slot, const Json &arg)
+  {
+    const std::string dst = arg.has("dst") ? arg["dst"].str() : std::string("fresh");
+    if (dst == "fresh" || !slot) slot.reset(new T());
+    if (dst == "prepop") assign(*slot, arg["pre"]);
+    else if (dst != "fresh" && dst != "reused") throw std::logic_error("driver: unknown destination " + dst);
+    return *slot;
+  }
+  template <typename T>
+  void podDest(T &x, const Json &arg)
+  {
+    if (!arg.has("dst") || arg["dst"].str() == "fresh") std::memset(&x, 0, sizeof x);
+  }
+  // the scratch object a failed read went into is not used again
+  void discardDest(const Json &arg)
+  {
+    const std::string &t = arg["t"].str();
+    const bool vec = arg["via"].str() == "vec";
+    if (t == "str" || t == "cstr") sStr.reset();
+    else if (t == "vi" || (vec && t != "FixedArrayView<uint8_t>")) sVi.reset();
+    else if (vec) sVb.reset();
+    else if (t == "vs") sVs.reset();
+    else if (t == "vvi") sVvi.reset();
+  }
+
   Json readItem(const Json &arg)
   {
     const std::string &t = arg["t"].str();
     const std::string &via = arg["via"].str();
     BufferReader &r = *rd;
-    if (t == "u8") { uint8_t x; r >> x; return Json((int)x); }
-    if (t == "i32") { int32_t x; r >> x; return Json((int)x); }
+    if (t == "u8") { uint8_t &x = pU8; podDest(x, arg); r >> x; return Json((int)x); }
+    if (t == "i32") { int32_t &x = pI32; podDest(x, arg); r >> x; return Json((int)x); }
     if (t == "u64") {
-      size_t x; r >> x;
+      size_t &x = pU64; podDest(x, arg); r >> x;
       if (x % 0x100000001ULL == 0 && x / 0x100000001ULL <= 0x7fffffffULL) return Json((long long)(x / 0x100000001ULL));
       return Json("unmapped:" + std::to_string(x));
     }
     if (t == "f64") {
-      double x; r >> x;
+      double &x = pF64; podDest(x, arg); r >> x;
       double y = x * 8.0;
       if (std::isfinite(y) && std::fabs(y) < 2e9 && y == std::floor(y)) return Json((long long)y);
       return Json("unmapped:" + std::to_string(x));
     }
     if (t == "pod") {
-      Pod p; r >> p;
+      Pod &p = pPod; podDest(p, arg); r >> p;
       Json a = Json::array();
       a.push(Json((int)p.a));
       float y = p.b * 2.0f;
@@ -226,16 +282,16 @@ struct StreamWorld : IWorld
       a.push(Json((int)p.c));
       return a;
     }
-    if (t == "str" || t == "cstr") { std::string x; r >> x; return Json(x); }
-    if (t == "vi") { std::vector<int> x; r >> x; return arr(x); }
+    if (t == "str" || t == "cstr") { std::string &x = dest(sStr, arg); r >> x; return Json(x); }
+    if (t == "vi") { std::vector<int> &x = dest(sVi, arg); r >> x; return arr(x); }
     if (t == "vs") {
-      std::vector<std::string> x; r >> x;
+      std::vector<std::string> &x = dest(sVs, arg); r >> x;
       Json a = Json::array();
       for (auto &e : x) a.push(Json(e));
       return a;
     }
     if (t == "vvi") {
-      std::vector<std::vector<int>> x; r >> x;
+      std::vector<std::vector<int>> &x = dest(sVvi, arg); r >> x;
       Json a = Json::array();
       for (auto &e : x) a.push(arr(e));
       return a;
@@ -257,8 +313,8 @@ struct StreamWorld : IWorld
         size_t n; r >> n;
         return byteArr ? viewToVec<uint8_t>(n) : viewToVec<int>(n);
       }
-      if (byteArr) { std::vector<uint8_t> x; r >> x; return arr(x); }
-      std::vector<int> x; r >> x; return arr(x);
+      if (byteArr) { std::vector<uint8_t> &x = dest(sVb, arg); r >> x; return arr(x); }
+      std::vector<int> &x = dest(sVi, arg); r >> x; return arr(x);
     }
     throw std::logic_error("driver: unknown item type " + t);
   }
@@ -312,9 +368,11 @@ struct StreamWorld : IWorld
         if (std::string(e.what()).compare(0, 7, "driver:") == 0) throw;
         o.set("ret", "throws");
         failed = true;
+        if (a == "Read") discardDest(arg);
       } catch (const std::exception &) {
         o.set("ret", "throws");
         failed = true;
+        if (a == "Read") discardDest(arg);
       }
       readerState(o);
     } else if (a == "View") {
